@@ -169,7 +169,9 @@ CLAIMED = {
         "and concatenations (references_inside_compounds): replacing a reference by the signal it resolved to commutes with slicing and concatenating — "
         "bit i of the elaborated connection is bit i of the written one (checked on random compounds over references); per-element array wiring "
         "(array_element_bits); instance bundles (instbundle_expansion over the model of InstBundleElabPass: one instance per member, member-wise / "
-        "by-name / broadcast connections, refusals; compared with the real pass per member instance). Everything beyond — arrays' broadcast, bundles / anonymous bundles / bundle references, pairs, and the "
+        "by-name / broadcast connections, refusals; compared with the real pass per member instance); instance arrays (array_expansion, array_pass_accepts_iff, "
+        "array_parts_partition over the model of ArrayFlattener: n instances with the array's ports, broadcast or the k-th w bits per element, accepted iff every "
+        "width is w or n*w; compared with the real pass run alone: element names, bits, refusals). Everything beyond — bundles / anonymous bundles / bundle references, pairs, and the "
         "composition across hierarchy — is decided by correspondence: Sem.src (Lean, declarative, no reference to any pass) vs "
         "Sem.pkg of the real package (Lean, netlister reading) vs the partition read from the spice text, plus leaf devices and "
         "parameters, on generated designs over all constructs in three construction styles.",
